@@ -25,6 +25,7 @@ def same_behaviour(a, b):
 
 
 def run(rep, tier, seed):
+    gd.pollute()        # same-named custom callables have been used in this process before any spec is parsed
     a = tlc.model_check_sharded("MC_Grammar", "MC_Grammar.cfg", nshards=8)
     rep.add_tlc(a, "A:MC_Grammar")
     if not a["ok"]:
